@@ -129,6 +129,40 @@ impl Sub for ClaimsRoundTrip {
             let kind = what.split(' ').next().unwrap_or("differs").to_string();
             vio!("C14:{}:{}-build", kind, nth; "{}: parser returned {} but the claims set were {} — history {}", what, got, want, hist(i));
           }
+          // "a parser": the same must come back from a parser that is configured - accepting validators for claims the
+          // token does and does not carry, and (when the claims leave exp / nbf alone) the batteries-included default parser
+          if builds % 2 == 1 {
+            let accept: &'static rusty_paseto::prelude::ValidatorFn = &|_, _| Ok(());
+            let absent_specs = [ClaimSpec::Custom("claim-the-token-lacks".into(), Value::Null), ClaimSpec::Iss("x".into()), ClaimSpec::Any("tenant".into(), Value::Null)];
+            let mut gp = crate::proto::new_parser(p, Layer::Generic);
+            if let Some(f) = c.footer.as_deref() {
+              gp.footer(f);
+            }
+            for sp in &absent_specs {
+              let _ = gp.validate(sp, accept);
+            }
+            if let Ok(v) = gp.parse(&token, &lk) {
+              if v != want {
+                let extra: Vec<&String> = v.as_object().map(|o| o.keys().filter(|k| !model.contains_key(*k)).collect()).unwrap_or_default();
+                vio!("C14:configured-parser-returns-other-json:generic"; "a GenericParser with accepting validators (for claims present and absent) returned {} (members never set: {:?}) but the claims set were {} — history {}", v, extra, want, hist(i));
+              }
+              cl.tag("also-read-through-a-parser-with-validators");
+            }
+            if !model.contains_key("exp") && !model.contains_key("nbf") {
+              let mut pp = crate::proto::new_parser(p, Layer::Prelude);
+              if let Some(f) = c.footer.as_deref() {
+                pp.footer(f);
+              }
+              match pp.parse(&token, &lk) {
+                Ok(v) if v != want => {
+                  let extra: Vec<&String> = v.as_object().map(|o| o.keys().filter(|k| !model.contains_key(*k)).collect()).unwrap_or_default();
+                  vio!("C14:configured-parser-returns-other-json:prelude"; "PasetoParser::default() returned {} (members never set: {:?}) but the claims set were {} — history {}", v, extra, want, hist(i));
+                }
+                Ok(_) => cl.tag("also-read-through-the-default-parser"),
+                Err(e) => vio!("C14:parse-failed:{}:prelude:{}", p.label(), e.variant; "the default parser rejected a token without exp / nbf: {} — history {}", e.text, hist(i)),
+              }
+            }
+          }
         }
       }
     }
